@@ -122,7 +122,7 @@ def vdesc_in():
                                   "t": st.floats(min_value=0.0, max_value=1.0)})
 
 
-def op_strategy(only_bounds=False, only_modes=False):
+def op_strategy(only_bounds=False, only_modes=False, only_hook=False):
     from hypothesis import strategies as st
     num = st.one_of(st.integers(-200, 400).map(float),
                     st.floats(min_value=-500, max_value=5000, allow_nan=False),
@@ -197,6 +197,9 @@ def op_strategy(only_bounds=False, only_modes=False):
                    "below": t[3]})
     if only_modes:
         return MISC_ALTS[-1]
+    if only_hook:
+        return st.fixed_dictionaries({}, optional={"F": vd, "S": vd}).filter(bool).map(
+            lambda sp: {"op": "hook", "spec": sp})
     if only_bounds:
         return st.one_of(sb, sb, sb, box)
     # (explicit weights, see hist.weighted)
@@ -529,8 +532,11 @@ def strategy(n):
         # that whole histories run under a non-default feed mode / unit system
         "ops": st.tuples(st.lists(op_strategy(only_bounds=True), max_size=6),
                          st.lists(op_strategy(only_modes=True), max_size=2),
+                         # a third of the cases: a rewriting move hook from the start
+                         st.sampled_from([0, 0, 1]).flatmap(
+                             lambda k: st.lists(op_strategy(only_hook=True), min_size=k, max_size=k)),
                          st.lists(op_strategy(), min_size=1, max_size=n)).map(
-            lambda t: t[0] + t[1] + t[2])})
+            lambda t: t[0] + t[1] + t[2] + t[3])})
 
 
 def run_shard(ctx):
